@@ -203,6 +203,18 @@ class FReq(Schema):
     d: int = Field(ge=0, default=7)
 
 
+class FPlainBase(Schema):
+    # declares the fields, carries no policy
+    r: int = Field(ge=0)
+    o: int = Field(ge=0, required=False)
+    d: int = Field(ge=0, default=7)
+
+
+class FInherit(FPlainBase):
+    # the policy comes from the subclass, the fields are inherited
+    __options__ = Options(invalid_values='exclude')
+
+
 class FFac(Schema):
     __options__ = Options(invalid_values='exclude')
     r: int = Field(ge=0)
@@ -294,21 +306,25 @@ def conv_ge0(v):
 
 
 @ob('fields', marks=['offender', 'clean', 'required-offender'], budget=(60, 200),
-    bounds='Schemas with Options(invalid_values=exclude) / per-field on_error (preserve, exclude) / r required only in mode w (class in mode w and in mode r) / d from a default_factory / Options(no_default=True): fields r (required), '
+    bounds='Schemas with Options(invalid_values=exclude) / per-field on_error (preserve, exclude) / r required only in mode w (class in mode w and in mode r) / d from a default_factory / Options(no_default=True) / the policy set by a subclass over inherited fields / given at parse time: fields r (required), '
            'o (optional), d (default 7), all int ge 0; each value absent | solver int -3..3 | "x" | "5"',
     out='non-int fields')
 def fields(V):
-    which = V.pick('cls', ['options-exclude', 'field-on_error', 'required-in-mode', 'required-in-other-mode', 'default-factory', 'no_default'])
+    which = V.pick('cls', ['options-exclude', 'field-on_error', 'required-in-mode', 'required-in-other-mode', 'default-factory', 'no_default',
+                           'policy-on-subclass', 'policy-at-parse-time'])
     cls = {'options-exclude': FReq, 'field-on_error': FOn, 'required-in-mode': FMode, 'required-in-other-mode': FModeR,
-           'default-factory': FFac, 'no_default': FNoDef}[which]
+           'default-factory': FFac, 'no_default': FNoDef, 'policy-on-subclass': FInherit, 'policy-at-parse-time': FPlainBase}[which]
     r_required = cls is not FModeR
     data = {}
     for n in ('r', 'o', 'd'):
         v, has = _val(V, n)
         if has:
             data[n] = v
-    r = attempt(cls, **data)
-    d = lambda: '%s(**%r) -> %r' % (cls.__name__, data, r if r[0] != 'ok' else ('ok', dict(r[1])))
+    if which == 'policy-at-parse-time':
+        r = attempt(cls.__from__, data, options=Options(invalid_values='exclude'))
+    else:
+        r = attempt(cls, **data)
+    d = lambda: '%s(**%r) [%s] -> %r' % (cls.__name__, data, which, r if r[0] != 'ok' else ('ok', dict(r[1])))
     V.check(r[0] != 'crash', 'fields:crash', d)
     want = {}
     fail = False
